@@ -29,6 +29,17 @@ def enum_is_64(t):
     return any(v > 0xFFFFFFFF or v < -0x80000000 for v in enum_values(t))
 
 
+def _resolve(m, t):
+    """Strip cv-qualifiers and typedefs."""
+    idx = M.type_index(m)
+    while True:
+        t = M.strip_cv(t)
+        if t[0] == "n" and idx.get(t[1], {}).get("kind") == "typedef":
+            t = idx[t[1]]["type"]
+            continue
+        return t
+
+
 def _different_builtin(draw, old):
     cands = [b for b in M.BUILTINS if b != old]
     return ["b", _pick(draw, cands)]
@@ -63,6 +74,18 @@ BREAKING = ["insert_member", "remove_member", "reorder_members", "member_type", 
             "var_type", "add_base", "remove_base", "add_virtual", "remove_virtual"]
 
 
+def _base_candidates(m, t):
+    """Complete structs/classes defined before t that are not yet among its bases."""
+    out = []
+    have = set(b["name"] for b in t.get("bases", []))
+    for x in m["types"]:
+        if x["name"] == t["name"]:
+            break
+        if x["kind"] in ("struct", "class") and x["name"] not in have and not x.get("where", "pub").startswith("tu"):
+            out.append(x["name"])
+    return out
+
+
 def applicable_breaking(m):
     out = []
     # unions are left out on purpose: a union change that keeps the union's size is layout-preserving and
@@ -84,7 +107,7 @@ def applicable_breaking(m):
     fns = [f for k, f in M.exported(m) if k == "fn"]
     vars_ = [v for k, v in M.exported(m) if k == "var"]
     if fns:
-        out += ["add_param", "param_type" if any(f["params"] for f in fns) else "add_param", "return_type"]
+        out += ["add_param", "return_type"] + (["param_type"] if any(f["params"] for f in fns) else [])
         if any(f["params"] for f in fns):
             out += ["remove_param"]
         if len(fns) + len(vars_) >= 2:
@@ -101,6 +124,8 @@ def applicable_breaking(m):
                 out += ["remove_virtual"]
             if any(t.get("bases") for t in cls):
                 out += ["remove_base"]
+            if any(_base_candidates(m, t) for t in cls):
+                out += ["add_base"]
     return sorted(set(out))
 
 
@@ -112,7 +137,11 @@ def breaking(draw, m, only=None):
         kinds = [k for k in kinds if k in only]
     if not kinds:
         return None, None
-    kind = _pick(draw, kinds)
+    # Hypothesis favours small draws (index 0); offset the index by a value derived from the model so that every catalog
+    # entry gets its share, and give the C++-only entries (rarely applicable) a second ticket
+    kinds = kinds + [k for k in kinds if k in ("add_base", "remove_base", "add_virtual", "remove_virtual", "array_bound",
+                                               "enum_size", "reorder_members")]
+    kind = kinds[(draw(st.integers(0, 997)) + len(M.canon(m))) % len(kinds)]
     cx = _ctx_for(m2)
     idx = M.type_index(m2)
     info = {"kind": kind, "removed": [], "affected": []}
@@ -229,7 +258,11 @@ def breaking(draw, m, only=None):
             elif old[0] == "b":
                 f["ret"] = _different_builtin(draw, old[1])
             else:
-                f["ret"] = ["b", _pick(draw, ["int", "char", "double"])] if old[0] != "b" else ["void"]
+                # not "int": an enum (or a typedef of an integer) replaced by the compatible integer type is a change
+                # libabigail documents as harmless, not an ABI-incompatible edit
+                base = _resolve(m2, old)
+                f["ret"] = ["b", _pick(draw, [b for b in ("char", "double", "long double", "short")
+                                             if base != ["b", b]])]
         elif kind == "remove_fn":
             m2["funcs"] = [x for x in m2["funcs"] if x["name"] != f["name"]]
             info["removed"] = [f["name"]] + [a["name"] for a in f.get("aliases", [])]
@@ -251,8 +284,10 @@ def breaking(draw, m, only=None):
             else:
                 v["type"] = ["p", ["b", _pick(draw, ["char", "int", "double"])]]
         info["affected"] = [v["name"]]
-    elif kind in ("add_virtual", "remove_virtual", "remove_base"):
+    elif kind in ("add_virtual", "remove_virtual", "remove_base", "add_base"):
         cls = _reachable_of_kind(m2, ("class",))
+        if kind == "add_base":
+            cls = [t for t in cls if _base_candidates(m2, t)]
         if kind == "remove_virtual":
             cls = [t for t in cls if any(me.get("virtual") for me in t.get("methods", []))]
         if kind == "remove_base":
@@ -267,6 +302,10 @@ def breaking(draw, m, only=None):
             i = _pick(draw, [i for i, me in enumerate(t["methods"]) if me.get("virtual")])
             info["method"] = t["methods"][i]["name"]
             del t["methods"][i]
+        elif kind == "add_base":
+            b = _pick(draw, _base_candidates(m2, t))
+            t.setdefault("bases", []).append({"name": b, "virtual": False, "access": "public"})
+            info["base"] = b
         else:
             i = draw(st.integers(0, len(t["bases"]) - 1))
             info["base"] = t["bases"][i]["name"]
